@@ -437,89 +437,105 @@ func (s *c05Spec) check(seq []c05Op, logq *[]c05Logged) (vs []eng.Violation) {
 	if !hasMerge {
 		return vs
 	}
-	sb := s.write(seq)
 	wantS := s.expect(seq, true)
 	rd := commit.NewReader()
-	for _, c := range chunks {
-		// the order in which the column sees the operations of this block, and the
-		// results it swaps in
-		mi := 0
-		var merges []*c05Kind
-		for _, o := range seq {
-			if commit.ChunkAt(o.off) == c && s.kinds[o.kind].op == commit.Merge {
-				merges = append(merges, &s.kinds[o.kind])
+	// pass runs the swapping pass block by block, as a commit does, and then a later
+	// reader; on the freshly written buffer and on what a commit codec round trip of each
+	// block delivers (a replica swaps merges in buffers it has decoded)
+	pass := func(view string, sb *commit.Buffer, only []commit.Chunk, roundTrip bool) {
+		for _, c := range only {
+			// the order in which the column sees the operations of this block, and the
+			// results it swaps in
+			mi := 0
+			var merges []*c05Kind
+			for _, o := range seq {
+				if commit.ChunkAt(o.off) == c && s.kinds[o.kind].op == commit.Merge {
+					merges = append(merges, &s.kinds[o.kind])
+				}
 			}
-		}
-		var first []c05Rec
-		rd.Range(sb, c, func(r *commit.Reader) {
-			for r.Next() {
-				if r.Type == commit.Merge && mi < len(merges) {
-					k := merges[mi]
-					mi++
-					first = append(first, c05Rec{op: commit.Merge, off: r.Offset, val: string(r.Bytes())})
-					switch k.width {
-					case 2:
-						r.SwapUint16(uint16(k.result[0])<<8 | uint16(k.result[1]))
-					case 4:
-						r.SwapUint32(uint32(k.result[0])<<24 | uint32(k.result[1])<<16 | uint32(k.result[2])<<8 | uint32(k.result[3]))
-					case 8:
-						var v uint64
-						for _, x := range k.result {
-							v = v<<8 | uint64(x)
+			var first []c05Rec
+			rd.Range(sb, c, func(r *commit.Reader) {
+				for r.Next() {
+					if r.Type == commit.Merge && mi < len(merges) {
+						k := merges[mi]
+						mi++
+						first = append(first, c05Rec{op: commit.Merge, off: r.Offset, val: string(r.Bytes())})
+						switch k.width {
+						case 2:
+							r.SwapUint16(uint16(k.result[0])<<8 | uint16(k.result[1]))
+						case 4:
+							r.SwapUint32(uint32(k.result[0])<<24 | uint32(k.result[1])<<16 | uint32(k.result[2])<<8 | uint32(k.result[3]))
+						case 8:
+							var v uint64
+							for _, x := range k.result {
+								v = v<<8 | uint64(x)
+							}
+							r.SwapUint64(v)
+						default:
+							r.SwapBytes(append([]byte{}, k.result...))
 						}
-						r.SwapUint64(v)
-					default:
-						r.SwapBytes(append([]byte{}, k.result...))
+						continue
 					}
-					continue
+					first = append(first, c05Rec{op: r.Type, off: r.Offset, val: string(r.Bytes())})
 				}
-				first = append(first, c05Rec{op: r.Type, off: r.Offset, val: string(r.Bytes())})
-			}
-		})
-		if w := filterChunk(want, c); !sameRecs(first, w) {
-			wit := "the swapping pass itself reads a different sequence"
-			// known pattern: the pass re-reads puts it appended itself, because the block
-			// has a later section in the buffer and the append went into that section
-			var stripped []c05Rec
-			wi := 0
-			for _, r := range first {
-				if wi < len(w) && r == w[wi] {
-					stripped = append(stripped, r)
-					wi++
-					continue
-				}
-				appended := false
-				for _, k := range merges {
-					if r.op == commit.Put && k.width == -1 && len(k.result) != len(k.payload) && r.val == string(k.result) {
-						appended = true
+			})
+			if w := filterChunk(want, c); !sameRecs(first, w) {
+				wit := "the swapping pass itself reads a different sequence"
+				// known pattern: the pass re-reads puts it appended itself, because the block
+				// has a later section in the buffer and the append went into that section
+				var stripped []c05Rec
+				wi := 0
+				for _, r := range first {
+					if wi < len(w) && r == w[wi] {
+						stripped = append(stripped, r)
+						wi++
+						continue
+					}
+					appended := false
+					for _, k := range merges {
+						if r.op == commit.Put && k.width == -1 && len(k.result) != len(k.payload) && r.val == string(k.result) {
+							appended = true
+						}
+					}
+					if !appended {
+						stripped = append(stripped, r)
 					}
 				}
-				if !appended {
-					stripped = append(stripped, r)
+				if sameRecs(stripped, w) {
+					wit = "swapping pass re-reads the put it appended into a later section of the same block"
 				}
+				vs = append(vs, eng.Violation{Assert: "swap/first-pass", Witness: wit,
+					Detail: fmt.Sprintf("seq {%s} block %d (%s): wrote %s, pass read %s", lbl, c, view, recsStr(w), recsStr(first))})
 			}
-			if sameRecs(stripped, w) {
-				wit = "swapping pass re-reads the put it appended into a later section of the same block"
+			// later readers of this block
+			got, _ := readChunk(sb, c)
+			w := filterChunk(wantS, c)
+			if off, ok := samePerOffset(got, w); !ok {
+				wit := "per-offset order after swap differs"
+				if s.knownSwapPattern(seq, c, off) {
+					wit = "variable-length merge result of another size followed by a later operation on the same offset"
+				}
+				vs = append(vs, eng.Violation{Assert: "swap/later-reader", Witness: wit,
+					Detail: fmt.Sprintf("seq {%s} block %d offset %d (%s): expected %s, second pass reads %s", lbl, c, off, view, recsStr(w), recsStr(got))})
+			} else if roundTrip {
+				id := uint64(2000 + c)
+				g, err := s.commitRoundTrip("codec", sb, c, id)
+				s.checkCommit("codec", g, err, c, id, wantS, true, lbl, &vs)
+				g, err = s.commitRoundTrip("clone", sb, c, id)
+				s.checkCommit("clone", g, err, c, id, wantS, true, lbl, &vs)
 			}
-			vs = append(vs, eng.Violation{Assert: "swap/first-pass", Witness: wit,
-				Detail: fmt.Sprintf("seq {%s} block %d: wrote %s, pass read %s", lbl, c, recsStr(w), recsStr(first))})
 		}
-		// later readers of this block
-		got, _ := readChunk(sb, c)
-		w := filterChunk(wantS, c)
-		if off, ok := samePerOffset(got, w); !ok {
-			wit := "per-offset order after swap differs"
-			if s.knownSwapPattern(seq, c, off) {
-				wit = "variable-length merge result of another size followed by a later operation on the same offset"
+	}
+	pass("fresh buffer", s.write(seq), chunks, true)
+	for _, c := range chunks {
+		g, err := s.commitRoundTrip("codec", s.write(seq), c, uint64(3000+c))
+		if err != nil {
+			continue // (reported by checkCommit above)
+		}
+		for _, u := range g.Updates {
+			if u.Column == "col" {
+				pass("buffer decoded by Commit.ReadFrom", u, []commit.Chunk{c}, false)
 			}
-			vs = append(vs, eng.Violation{Assert: "swap/later-reader", Witness: wit,
-				Detail: fmt.Sprintf("seq {%s} block %d offset %d: expected %s, second pass reads %s", lbl, c, off, recsStr(w), recsStr(got))})
-		} else {
-			id := uint64(2000 + c)
-			g, err := s.commitRoundTrip("codec", sb, c, id)
-			s.checkCommit("codec", g, err, c, id, wantS, true, lbl, &vs)
-			g, err = s.commitRoundTrip("clone", sb, c, id)
-			s.checkCommit("clone", g, err, c, id, wantS, true, lbl, &vs)
 		}
 	}
 	return vs
